@@ -53,14 +53,15 @@ func lexicallyValid(n string) bool {
 }
 
 type caseT struct {
-	Op        string
-	Name      string
-	Depth     int
-	Format    string
-	Level     string
-	Source    string // install: file | dir
-	Overwrite bool
-	Absent    bool // uninstall: no directory of that name exists (the call must fail and change nothing)
+	Op         string
+	Name       string
+	Depth      int
+	Format     string
+	Level      string
+	Source     string // install: file | dir
+	Overwrite  bool
+	Absent     bool // uninstall: no directory of that name exists (the call must fail and change nothing)
+	LinkedRoot bool // list: the plugin root itself is reached through a symbolic link (libexec on another volume, a dotfile manager)
 }
 
 var workerSrc string
@@ -134,7 +135,7 @@ func main() {
 				cases = append(cases, caseT{Op: "install", Name: fn, Depth: depth, Source: "file", Overwrite: ow}, caseT{Op: "install", Name: fn, Depth: depth, Source: "dir", Overwrite: ow})
 			}
 		}
-		cases = append(cases, caseT{Op: "list", Depth: depth})
+		cases = append(cases, caseT{Op: "list", Depth: depth}, caseT{Op: "list", Depth: depth, LinkedRoot: true})
 	}
 	vnames := names
 	if r.Quick() {
@@ -279,6 +280,10 @@ func main() {
 			os.Symlink(filepath.Join(root, "good"), J(filepath.Join(root, "ln-dir")))
 			os.Symlink(filepath.Join(root, "file"), J(filepath.Join(root, "ln-file")))
 			os.Symlink("/does/not/exist", J(filepath.Join(root, "ln-dangling")))
+			if c.LinkedRoot {
+				os.Rename(J(root), J(root+"-real"))
+				os.Symlink(filepath.Base(root)+"-real", J(root))
+			}
 		}
 		specBytes, _ := json.Marshal(sp)
 		os.WriteFile(J("/spec.json"), specBytes, 0o644)
